@@ -48,6 +48,7 @@ func VerifHarness_C24_RoundTrip() {
 		&SlashEvent{Address: a2, Amount: amt("slash"), Coin: 1, ValidatorPubKey: k2},
 		&JailEvent{ValidatorPubKey: k1, JailedUntil: verifU64("jailedUntil")},
 		&UnbondEvent{Address: a1, Amount: amt("unbond"), Coin: 2, ValidatorPubKey: &kp},
+		&UnbondEvent{Address: a2, Amount: amt("unbond.nokey"), Coin: 0, ValidatorPubKey: nil}, // an unbond recorded without a validator key
 		&UnlockEvent{Address: a2, Amount: amt("unlock"), Coin: 0},
 		&StakeMoveEvent{Address: a1, Amount: amt("move"), Coin: 0, CandidatePubKey: k1, ToCandidatePubKey: k2},
 		&StakeKickEvent{Address: a2, Amount: amt("kick"), Coin: 1, ValidatorPubKey: k1},
@@ -91,7 +92,11 @@ func verifSame(tag string, in, out Events) {
 			verifAssert("C24:"+tag+":jail", ok && a.ValidatorPubKey == b.ValidatorPubKey && a.JailedUntil == b.JailedUntil)
 		case *UnbondEvent:
 			b, ok := out[i].(*UnbondEvent)
-			verifAssert("C24:"+tag+":unbond", ok && a.Address == b.Address && a.Amount == b.Amount && a.Coin == b.Coin && b.ValidatorPubKey != nil && *a.ValidatorPubKey == *b.ValidatorPubKey)
+			if a.ValidatorPubKey == nil {
+				verifAssert("C24:"+tag+":unbond-without-key", ok && a.Address == b.Address && a.Amount == b.Amount && a.Coin == b.Coin && b.ValidatorPubKey == nil)
+			} else {
+				verifAssert("C24:"+tag+":unbond", ok && a.Address == b.Address && a.Amount == b.Amount && a.Coin == b.Coin && b.ValidatorPubKey != nil && *a.ValidatorPubKey == *b.ValidatorPubKey)
+			}
 		case *UnlockEvent:
 			b, ok := out[i].(*UnlockEvent)
 			verifAssert("C24:"+tag+":unlock", ok && a.Address == b.Address && a.Amount == b.Amount && a.Coin == b.Coin)
